@@ -38,11 +38,19 @@ func strBytes(v value) []value {
 		return out
 	case symstr:
 		return []value(v)
+	case numtext:
+		return strBytes(v.expand())
 	}
 	panic(fmt.Sprintf("strBytes: %T", v))
 }
 
 func (i *interpreter) strEq(x, y value) value {
+	if nx, ok := x.(numtext); ok {
+		return i.numtextEq(nx, y)
+	}
+	if ny, ok := y.(numtext); ok {
+		return i.numtextEq(ny, x)
+	}
 	a, b := strBytes(x), strBytes(y)
 	if len(a) != len(b) {
 		return false
@@ -91,6 +99,12 @@ func (i *interpreter) strBinop(op token.Token, x, y value) value {
 
 // convSym handles conversions that involve symbolic values; ok=false means "use the concrete path".
 func (i *interpreter) convSym(ut_dst, ut_src types.Type, x value) (value, bool) {
+	if nt, ok := x.(numtext); ok {
+		x = nt.expand()
+		if _, still := x.(symstr); !still {
+			return nil, false
+		}
+	}
 	switch xv := x.(type) {
 	case sym:
 		if db, ok := ut_dst.(*types.Basic); ok {
